@@ -33,6 +33,11 @@ chk("C06", "fault_enumeration", "explicit-state BFS with a radio fault at every 
     "Trusted: refcodec/refcrypto; the mocks' fault model (a failing call returns Err once). State key keeps the absolute counter only near boundaries (argument in c06.rs).",
     "DESIGN.md §3 C06")
 
+chk("C07", "model_checking", "self-composition (twin devices) explored by explicit-state BFS; rejection decided by the reference acceptor",
+    "Pair states of two real devices driven with identical events and RNG; twin B additionally receives one candidate frame (random bytes, bit flips of the authentic frame, other session, replays, stale / too-far counters, wrong-epoch MIC, oversized, JoinAccepts under wrong key / wrong length, JoinAccept in a data session, data frame in a join window) at every receive opportunity of every transaction (RX1, RX2; Class C: before RX1, before RX2, idle). Only frames the reference rejects count. The twins are compared in lock-step (responses, radio and timer operations, delivered downlinks, snapshots) for the rest of the history; oversized frames may end the receive procedure.",
+    "Trusted: refcodec/refcrypto and the freshness rule; one injection per history; depth 3 (quick) / 4 (thorough) transactions; nb and async (+Class C) front-ends, ABP and OTAA.",
+    "DESIGN.md §3 C07")
+
 ALL = ["C%02d" % i for i in range(1, 21)]
 NA_REASON = "check not built yet in this round; see DESIGN.md for the planned bounded exploration"
 
